@@ -25,7 +25,7 @@ template <class Aut> inline Aut load(const ref::TA& A, const dom::Alphabet& sig)
 template <class Aut> inline Aut loadD(const ref::TA& A, const dom::Alphabet& sig, VATA::AutBase::StateDict& sd, VATA::AutBase::StateType& cnt) {
   VATA::Parsing::TimbukParser par; Aut x; VATA::AutBase::StringToStateTranslWeak tr(sd, [&cnt](const std::string&) { return cnt++; }); x.LoadFromString(par, dom::timbuk(A, sig), tr); return x;
 }
-template <class Aut> inline std::string dumpText(const Aut& x) { VATA::Serialization::TimbukSerializer ser; return x.DumpToString(ser); }
+template <class Aut> inline std::string dumpText(const Aut& x) { VATA::Serialization::TimbukSerializer ser; std::string t = x.DumpToString(ser); verif::obs(t); return t; }
 template <class Aut> inline ref::TA modelOf(const Aut& x, const dom::Alphabet& sig) { return modelOfText(dumpText(x), sig); }
 
 }  // namespace bddg
